@@ -1503,7 +1503,21 @@ func (g *gen) switchStmt() {
 				v++
 			}
 			used[v] = true
-			if g.r.Intn(4) == 0 && !g.off("switch-multi-value-case") {
+			if g.r.Intn(4) == 0 && !g.off("switch-tag-case-list-call") {
+				// a list of NON-constant expressions, with calls that print: Go evaluates them left to right and stops
+				// at the first that equals the tag
+				g.f("switch-tag-case-list-call")
+				w := v + 10
+				used[w] = true
+				items := []string{fmt.Sprintf("si(%q, %d)", g.fresh("t"), v), fmt.Sprintf("si(%q, %d)", g.fresh("t"), w)}
+				if g.r.Intn(2) == 0 {
+					items[0] = fmt.Sprintf("id(%d)", v)
+				}
+				if g.r.Intn(3) == 0 {
+					items = append(items, "id("+g.expr(tInt, 1)+")") // never a constant: duplicate constant cases do not compile
+				}
+				g.line("case %s:", strings.Join(items, ", "))
+			} else if g.r.Intn(4) == 0 && !g.off("switch-multi-value-case") {
 				w := v + 10
 				used[w] = true
 				g.line("case %d, %d:", v, w)
@@ -1635,6 +1649,8 @@ func mkI(a int) (string, int) { return fmt.Sprint("i", a), a * 3 }
 
 // sb prints its tag: which conditions of a case list are evaluated, and in which order
 func sb(tag string, b bool) bool { fmt.Println(tag); return b }
+
+func si(tag string, v int) int { fmt.Println(tag); return v }
 
 // named results assigned before a panic, and changed by a deferred closure (construct named-result-recover)
 func nrP(a int) (r int) {
